@@ -289,42 +289,22 @@ class IndexedCache:
         # Fast return on empty cache node
         if isinstance(cache, CacheDict) and not cache:
             return
-        keys = self.keys
-        n_keys = len(keys)
-        key = keys[key_idx]
+        key = self.keys[key_idx]
 
-        # Follow the concrete chain as far as it exists without exceptions
-        while key in assignment:
-            next_cache = cache.get(assignment[key])
-            if next_cache is None:
-                # Try wildcard branch at this level
-                wildcard = cache.get(All)
-                if wildcard is not None:
-                    yield from self._yield_result(assignment, wildcard, key_idx, result)
-                else:
-                    self.search_count += 1
-                return
-            cache = next_cache
-            if key_idx + 1 < n_keys:
-                key_idx += 1
-                key = keys[key_idx]
-            else:
-                break
-
-        if key not in assignment:
-            # Prefer wildcard branch if available
-            wildcard = cache.get(All)
-            if wildcard is not None:
-                yield from self._yield_result(assignment, wildcard, key_idx, result)
-            else:
-                # Explore all branches at this level, copying only the minimal delta
-                for cache_key, cache_val in cache.items():
-                    local_result = copy(result)
-                    local_result[key] = cache_key
-                    yield from self._yield_result(assignment, cache_val, key_idx, local_result)
+        if key in assignment:
+            # Entries stored under this value and entries stored with this key unbound (wildcard) both agree with
+            # the lookup.
+            branches = [(k, cache[k]) for k in (assignment[key], All) if k in cache]
         else:
-            # Reached the leaf (value or next dict) specifically specified by assignment
-            yield result, cache
+            # The lookup leaves this key open: every stored entry agrees, whatever it holds (or not) for this key.
+            branches = list(cache.items())
+        if not branches:
+            self.search_count += 1
+        for cache_key, cache_val in branches:
+            branch_result = copy(result)
+            if key not in assignment and cache_key is not All:
+                branch_result[key] = cache_key
+            yield from self._yield_result(assignment, cache_val, key_idx, branch_result)
 
     def clear(self):
         self.cache.clear()
